@@ -179,6 +179,169 @@ def task_bfs(n, depth, deadline):
 
 
 # ---------------------------------------------------------------------------
+# (a2) BoundedExecutor: permits taken and returned by submit() / task completion
+# ---------------------------------------------------------------------------
+
+class ManualFuture:
+    def __init__(self):
+        self._cbs = []
+        self._done = False
+
+    def add_done_callback(self, fn):
+        if self._done:
+            fn(self)
+        else:
+            self._cbs.append(fn)
+
+    def done(self):
+        return self._done
+
+    def result(self):
+        return None
+
+    def finish(self):
+        self._done = True
+        for fn in self._cbs:
+            fn(self)
+        self._cbs = []
+
+
+class ManualExecutor:
+    """tasks stay parked until the history says they finish"""
+    last = None
+
+    def __init__(self, max_workers=None):
+        self.futs = []
+        self.fail_next = False
+        ManualExecutor.last = self
+
+    def submit(self, fn, *a, **k):
+        if self.fail_next:
+            self.fail_next = False
+            raise RuntimeError('cannot schedule new futures after shutdown')
+        f = ManualFuture()
+        self.futs.append(f)
+        return f
+
+    def shutdown(self, wait=True):
+        pass
+
+
+class _Task:
+    def __init__(self, tid):
+        self.transfer_id = tid
+
+    def __call__(self, *a):
+        pass
+
+
+def bounded_executor_bfs(cap, tagcap, wincap, depth, deadline):
+    from s3transfer.futures import BoundedExecutor, TaskTag
+    T_UP, T_WIN = TaskTag('up'), TaskTag('win')
+
+    class M:
+        def __init__(self):
+            self.out = {'plain': 0, 'up': 0, 'win': 0}
+            self.caps = {'plain': cap, 'up': tagcap, 'win': wincap}
+            self.tasks = []      # (kind, finished?)
+            self.win = RefWindow(wincap)     # the window frees capacity only in token order
+
+        def used(self, kind):
+            if kind == 'win':
+                return self.caps['win'] - self.win.capacity()
+            return self.out[kind]
+
+    def make():
+        be = BoundedExecutor(cap, 1, {T_UP: TaskSemaphore(tagcap), T_WIN: SlidingWindowSemaphore(wincap)},
+                             executor_cls=ManualExecutor)
+        be._vt_ex = ManualExecutor.last
+        return be, M()
+
+    def ops_of(impl, m):
+        ops = [('sub', 'plain'), ('sub', 'up'), ('sub', 'win'), ('subfail', 'plain')]
+        for i, (k, fin, _tok) in enumerate(m.tasks):
+            if not fin:
+                ops.append(('fin', i))
+        return ops
+
+    def free(impl):
+        # free permits of each semaphore through the public non-blocking API is intrusive; read counters
+        try:
+            return {'plain': impl._semaphore._semaphore._value, 'up': impl._tag_semaphores[T_UP]._semaphore._value,
+                    'win': impl._tag_semaphores[T_WIN].current_count()}
+        except AttributeError:
+            return None
+
+    def step(impl, m, op):
+        errors = []
+        if op[0] in ('sub', 'subfail'):
+            kind = op[1]
+            tag = {'plain': None, 'up': T_UP, 'win': T_WIN}[kind]
+            if op[0] == 'subfail':
+                impl._vt_ex.fail_next = True
+            full = m.used(kind) >= m.caps[kind]
+            try:
+                impl.submit(_Task(0), tag=tag, block=False)
+                got = 'ok'
+            except NoResourcesAvailable:
+                got = 'refused'
+            except RuntimeError:
+                got = 'executor-error'
+            except Exception as e:  # noqa
+                got = type(e).__name__
+            impl._vt_ex.fail_next = False
+            exp = 'refused' if full else ('executor-error' if op[0] == 'subfail' else 'ok')
+            if got != exp:
+                errors.append((f'C12:executor:submit:{kind}', f'non-blocking submit ({kind}) -> {got}, reference {exp} with {m.out[kind]}/{m.caps[kind]} slots held'))
+            if exp == 'ok':
+                m.out[kind] += 1
+                tok = None
+                if kind == 'win':
+                    tok = m.win.acquire(0)[1]
+                m.tasks.append([kind, False, tok])
+            elif exp == 'executor-error':
+                # the permit taken for a task the executor refused is never handed back by anybody:
+                # the statement only demands conservation for finished transfers; accept either (reference follows impl)
+                f = free(impl)
+                if f is not None:
+                    if kind == 'win':
+                        if f['win'] != m.caps['win'] - m.used('win'):
+                            m.win.acquire(0)       # the permit stays taken
+                    else:
+                        m.out[kind] = m.caps[kind] - f[kind]
+        else:
+            i = op[1]
+            live = [f for f in impl._vt_ex.futs]
+            # the i-th accepted task
+            idx = -1
+            cnt = -1
+            for j, f in enumerate(live):
+                cnt += 1
+                if cnt == i:
+                    idx = j
+                    break
+            live[idx].finish()
+            m.tasks[i][1] = True
+            m.out[m.tasks[i][0]] -= 1
+            if m.tasks[i][0] == 'win':
+                m.win.release(0, m.tasks[i][2])
+            got = 'ok'
+        f = free(impl)
+        if f is not None and not errors:
+            for kind in ('plain', 'up', 'win'):
+                if f[kind] != m.caps[kind] - m.used(kind):
+                    errors.append((f'C12:executor:capacity:{kind}',
+                                   f'after {op}: {f[kind]} free permits on the {kind} semaphore, reference {m.caps[kind] - m.used(kind)} (capacity {m.caps[kind]}, {m.out[kind]} tasks outstanding)'))
+                    break
+        return got, errors
+
+    def canon(impl, m):
+        return (tuple(sorted(m.out.items())), tuple((k, fin) for k, fin, _t in m.tasks))
+
+    return bfs.bfs(make, ops_of, step, canon, depth, deadline=deadline)
+
+
+# ---------------------------------------------------------------------------
 # (b) schedules of blocking acquirers and releasers
 # ---------------------------------------------------------------------------
 
@@ -331,6 +494,13 @@ def run(tier, seed):
                 for v in r.violations:
                     viol.append({'sig': v['sig'], 'msg': v['msg'] + f' history={v["history"]}',
                                  'replay': {'kind': 'bfs', 'n': n, 'history': v['history']}})
+            r = bounded_executor_bfs(n, 1, 2, 5 if tier == 'quick' else 6, None)
+            states += r.states
+            transitions += r.transitions
+            cov['parts'][f'bounded executor cap={n}'] = {'states': r.states, 'transitions': r.transitions, 'depth': r.depth_completed}
+            for v in r.violations:
+                viol.append({'sig': v['sig'], 'msg': v['msg'] + f' history={v["history"]}',
+                             'replay': {'kind': 'bfs-executor', 'n': n, 'history': v['history']}})
             r = task_bfs(n, depth, None)
             states += r.states
             transitions += r.transitions
